@@ -820,6 +820,7 @@ func (f *FileStore) replace(oldFiles, newFiles []string, updatedFn func(r []TSMF
 	if updatedFn != nil {
 		updatedFn(updated)
 	}
+	verifPoint("replace.renamed", oldFiles, newFiles)
 
 	f.mu.Lock()
 	defer f.mu.Unlock()
